@@ -3,7 +3,7 @@
 # usage: build.sh [coq|ocaml|go|all]
 set -e
 export GOFLAGS=-mod=mod GOPROXY=off GOSUMDB=off GOTOOLCHAIN=local
-V=/verif
+V=$(cd "$(dirname "$0")/.." && pwd)
 what=${1:-all}
 mkdir -p $V/.work/bin $V/.work/ocaml
 if [ "$what" = coq ] || [ "$what" = all ]; then
